@@ -117,6 +117,31 @@ def m_inv(m, v):
     return (frac(f["d"]) * v - frac(f["b"])) / (-frac(f["c"]) * v + frac(f["a"]))
 
 
+def m_is_matrix(m):
+    return m_kind(m) == "matrix"
+
+
+def m_apply_vec(m, vals):
+    """the map on a whole vector of exact Fractions (matrix maps act on the vector, the others elementwise)"""
+    if m_is_matrix(m):
+        return [sum(frac(c) * v for c, v in zip(row, vals)) for row in m["fmap"]["M"]]
+    return [m_apply(m, v) for v in vals]
+
+
+def m_inv_vec(m, vals):
+    if m_is_matrix(m):
+        return [sum(frac(c) * v for c, v in zip(row, vals)) for row in m["fmap"]["Mi"]]
+    return [m_inv(m, v) for v in vals]
+
+
+def m_bijective(m):
+    """is the map a bijection of the function values (so that par2fun(fun2par(f)) = f may be claimed)?"""
+    if m_is_matrix(m):
+        M = m["fmap"]["M"]
+        return len(M) == len(M[0]) and m["fmap"].get("Mi") is not None
+    return m_kind(m) != "poly"
+
+
 def m_py(m):
     """the Python callables handed to cuqi.geometry.MappedGeometry"""
     k = m_kind(m)
@@ -124,6 +149,10 @@ def m_py(m):
         a, b = m["a"], m["b"]
         return (lambda x, a=a, b=b: a * x + b), (lambda y, a=a, b=b: (y - b) / a)
     f = m["fmap"]
+    if k == "matrix":
+        M = np.array(f["M"], dtype=float)
+        Mi = np.array(f["Mi"], dtype=float) if f.get("Mi") is not None else None
+        return (lambda x: M @ x), ((lambda y: Mi @ y) if Mi is not None else None)
     if k == "moebius":
         a, b, c, d = f["a"], f["b"], f["c"], f["d"]
         return (lambda x: (a * x + b) / (c * x + d)), (lambda y: (d * y - b) / (-c * y + a))
@@ -146,7 +175,7 @@ def m_coq(m):
 
 def m_exact(m):
     """is the float evaluation of the map/imap exact on small integers?  (affine with dyadic coefficients, integer polynomials)"""
-    return m_kind(m) != "moebius"
+    return m_kind(m) != "moebius"      # matrices have dyadic entries: exact on small integers
 
 
 def enc_geom(d):
@@ -160,6 +189,9 @@ def enc_geom(d):
     if k in ("image", "default2d"):
         return "(GImage %s %s %s %s)" % (cnat(d["r"]), cnat(d["c"]), "OF" if d.get("order", "C") == "F" else "OC", cbool(d.get("visual", False)))
     if k == "mapped":
+        if m_is_matrix(d):
+            f = d["fmap"]
+            return "(GMappedLin %s %s %s)" % (enc_geom(d["inner"]), cmat(f["M"]), ("(Some %s)" % cmat(f["Mi"])) if (d["imap"] and f.get("Mi") is not None) else "None")
         fm, fi = m_coq(d)
         return "(GMapped %s %s %s)" % (enc_geom(d["inner"]), fm, ("(Some %s)" % fi) if (d["imap"] and fi) else "None")
     if k == "kl":
@@ -234,7 +266,7 @@ CLASSNAME = {"cont1d": "Continuous1D", "default1d": "_DefaultGeometry1D", "discr
 def gcell(d):
     k = d["kind"]
     if k == "mapped":
-        return "mapped%s%s(%s)" % ({"affine": "", "moebius": "-moebius", "poly": "-poly"}[m_kind(d)], "" if d["imap"] else "-noimap", gcell(d["inner"]))
+        return "mapped%s%s(%s)" % ({"affine": "", "moebius": "-moebius", "poly": "-poly", "matrix": "-matrix"}[m_kind(d)], "" if d["imap"] else "-noimap", gcell(d["inner"]))
     if k in ("image", "default2d"):
         return k + ("-visual" if d.get("visual") else "-" + d.get("order", "C"))
     return k
@@ -277,6 +309,8 @@ def doc_fun_shape(d):
     if k in ("image", "default2d"):
         return (d["r"] * d["c"],) if d.get("visual") else (d["r"], d["c"])
     if k == "mapped":
+        if m_is_matrix(d):
+            return (len(d["fmap"]["M"]),)      # the documentation of fun_shape: the shape of the function values par2fun returns
         return doc_fun_shape(d["inner"])
     if k == "kl":
         return (d["N"],)
@@ -309,6 +343,8 @@ def doc_par2fun_single(d, p):
         inner = doc_par2fun_single(d["inner"], p)
         if inner is None:
             return None
+        if m_is_matrix(d):
+            return np.array(m_apply_vec(d, list(inner.ravel())), dtype=object)
         out = np.empty(inner.shape, dtype=object)
         for ix in np.ndindex(inner.shape):
             out[ix] = m_apply(d, inner[ix])
@@ -470,7 +506,7 @@ def prop_check_map(d, g, mapname, x, y):
         f0 = np.asarray(cols[0], dtype=float)
         vals = [frac(v) for v in f0]
         for m in chain_of(d):
-            vals = [m_inv(m, v) for v in vals]
+            vals = m_inv_vec(m, vals)
         want_p = []
         for i in range(n):
             sel = [vals[t] for t in range(N) if ideal_step_of_node(N, n, t) == i]
@@ -494,7 +530,7 @@ def prop_check_map(d, g, mapname, x, y):
             if not same(y2, yc, exact):
                 return ("%s is not a projection: %s(%s(%s(f))) = %s but %s(f) = %s" % (
                     mapname, mapname, inv, mapname, None if y2 is None else y2.tolist(), mapname, yc.tolist()), inv if f1 is None or f1.shape != tuple(in_base) else mapname)
-            if innermost(d)["kind"] not in ("kl", "step"):
+            if innermost(d)["kind"] not in ("kl", "step") and all(m_bijective(m) for m in chain_of(d)):
                 if not same(f1, xc, exact):
                     return ("%s(%s(f)) != f for a bijective geometry: f=%s back=%s" % (inv, mapname, xc.tolist(), None if f1 is None else f1.tolist()), inv)
     return None
@@ -603,6 +639,8 @@ def shape_case(d):
     sig = ""
     if fail:
         sig = ("%s.par2fun|%s" % (CLASSNAME[innermost(d)["kind"]], SQ)) if (has_singleton(d, "par2fun") or 1 in doc_fun_shape(d)) else "%s.shapes" % CLASSNAME[innermost(d)["kind"]]
+        if d["kind"] == "mapped" and "|" not in sig:
+            sig = "MappedGeometry.shapes|%s-map-over-%s" % (m_kind(d), CLASSNAME[innermost(d)["kind"]])
     return Case(expr=expr, meta={"op": "shapes", "geom": d}, cell="shapes/" + gcell(d), impl_fail=fail, signature=sig, kind="DECISION")
 
 
@@ -1038,6 +1076,43 @@ def geoms_lattice(ctx):
     L.append({"kind": "mapped", "inner": {"kind": "mapped", "inner": inners[1], "fmap": moeb, "imap": True}, "a": 0.5, "b": -1.0, "imap": True})
     for inn, cs in ((inners[0], [1.0, -2.0, 0.0, 1.0]), (inners[1], [0.0, 0.0, 1.0]), (inners[2], [-1.0, 0.5, 0.25]), (inners[4], [2.0, 0.0, -1.0, 0.0, 0.5])):
         L.append({"kind": "mapped", "inner": inn, "fmap": {"kind": "poly", "coefs": cs}, "imap": False})
+    # maps acting on the WHOLE array of function values (matrices; the size of the function values may change):
+    # prolongation (linear interpolation n -> 2n-1 nodes) with the injection as left inverse, restriction (no inverse),
+    # permutation (its own inverse), cumulative sum with the difference matrix as inverse
+    def prolong(n):
+        P = [[0.0] * n for _ in range(2 * n - 1)]
+        for i in range(n):
+            P[2 * i][i] = 1.0
+        for i in range(n - 1):
+            P[2 * i + 1][i] = P[2 * i + 1][i + 1] = 0.5
+        return P
+
+    def inject(n):
+        return [[1.0 if j == 2 * i else 0.0 for j in range(2 * n - 1)] for i in range(n)]
+
+    def reverse(n):
+        return [[1.0 if j == n - 1 - i else 0.0 for j in range(n)] for i in range(n)]
+
+    def cumsum(n):
+        return [[1.0 if j <= i else 0.0 for j in range(n)] for i in range(n)]
+
+    def diffm(n):
+        return [[1.0 if j == i else (-1.0 if j == i - 1 else 0.0) for j in range(n)] for i in range(n)]
+    mat = lambda M, Mi=None: {"kind": "matrix", "M": M, "Mi": Mi}
+    c1 = lambda n: {"kind": "cont1d", "n": n}
+    L += [{"kind": "mapped", "inner": c1(3), "fmap": mat(prolong(3), inject(3)), "imap": True},
+          {"kind": "mapped", "inner": c1(6), "fmap": mat(prolong(6), inject(6)), "imap": True},
+          {"kind": "mapped", "inner": c1(6), "fmap": mat(prolong(6), inject(6)), "imap": False},
+          {"kind": "mapped", "inner": {"kind": "discrete", "n": 3}, "fmap": mat(prolong(3)), "imap": False},
+          {"kind": "mapped", "inner": c1(5), "fmap": mat(inject(3)), "imap": False},
+          {"kind": "mapped", "inner": c1(4), "fmap": mat(reverse(4), reverse(4)), "imap": True},
+          {"kind": "mapped", "inner": c1(4), "fmap": mat(cumsum(4), diffm(4)), "imap": True},
+          {"kind": "mapped", "inner": inners[4], "fmap": mat(cumsum(7), diffm(7)), "imap": True},
+          {"kind": "mapped", "inner": inners[4], "fmap": mat(inject(4)), "imap": False},
+          {"kind": "mapped", "inner": {"kind": "kl", "N": 5, "num_modes": 3, "decay": 2.0, "tau": 4.0}, "fmap": mat(prolong(5), inject(5)), "imap": True},
+          {"kind": "mapped", "inner": {"kind": "mapped", "inner": c1(3), "fmap": mat(prolong(3), inject(3)), "imap": True}, "a": 2.0, "b": -1.0, "imap": True},
+          {"kind": "mapped", "inner": {"kind": "mapped", "inner": c1(3), "fmap": moeb, "imap": True}, "fmap": mat(prolong(3), inject(3)), "imap": True},
+          {"kind": "mapped", "inner": {"kind": "mapped", "inner": c1(3), "fmap": mat(prolong(3), inject(3)), "imap": True}, "fmap": mat(inject(3), prolong(3)), "imap": False}]
     # KL: N x num_modes x decay x normalizer
     kl = []
     for N in ((1, 2, 3, 5, 8) if not ctx.thorough else (1, 2, 3, 4, 5, 6, 8, 9)):
